@@ -435,6 +435,43 @@ var Customs = map[string]CustomFn{
 		}
 		return a[len(a)-1], nil
 	},
+	// registered operators whose names differ from builtins / keywords only in
+	// letter case: ordinary STRICT operators (every operand is evaluated)
+	"AND": func(a []interface{}) (interface{}, error) {
+		r := true
+		for _, x := range a {
+			b, ok := x.(bool)
+			if !ok {
+				return nil, ErrBuiltin
+			}
+			r = r && b
+		}
+		return r, nil
+	},
+	"Or": func(a []interface{}) (interface{}, error) {
+		r := false
+		for _, x := range a {
+			b, ok := x.(bool)
+			if !ok {
+				return nil, ErrBuiltin
+			}
+			r = r || b
+		}
+		return r, nil
+	},
+	"IF": func(a []interface{}) (interface{}, error) { // strict three-operand choice
+		if len(a) != 3 {
+			return nil, ErrBuiltin
+		}
+		b, ok := a[0].(bool)
+		if !ok {
+			return nil, ErrBuiltin
+		}
+		if b {
+			return a[1], nil
+		}
+		return a[2], nil
+	},
 	"vsum": func(a []interface{}) (interface{}, error) { // variadic integer sum
 		var s int64
 		for _, x := range a {
